@@ -211,6 +211,8 @@ class Strategy:
                             mp[a] = args[1] if t else args[2]
                 if not mp:
                     return r
+                if len(mp) * (len(r.n.t) + len(r.d.t)) > 3000:
+                    return r            # (too large to substitute into; the open-test gate below answers "not recognised")
                 r = sym.subst(r, mp)
             return r
         for sf in self.stores:
@@ -218,6 +220,14 @@ class Strategy:
                 sf.value, sf.lo, sf.hi, sf.index = settle(sf.value), settle(sf.lo), settle(sf.hi), settle(sf.index)
             except (ZeroDivisionError, sym.Unknown):
                 pass
+        # a window-zero test that is still open in a stored value (not settled above, e.g. the value was too large to substitute into) leaves the value
+        # unread: no rule may compare it
+        for sf in self.stores:
+            open_tests = [sym.show_atom(a)[:80] for a in sym.all_atoms(sf.value) if sym.ATOMS.head(a) == 'gamma' and isinstance(sym.ATOMS.args(a)[0], Val)
+                          and tri(sym.ATOMS.args(a)[0], lambda q: self._zero_leaf(q)) is not None]
+            if open_tests:
+                self.issues.append(f"{sf.loc()} a window-zero test is left open in the stored value ({open_tests[0]})")
+                break
         # the window rules read which samples a store covers from the bounds of its sample loop: a store that is made for some samples of that range
         # only (a per-sample choice of the piece) is another shape
         ia = _atom(self.i)
@@ -279,6 +289,10 @@ class Strategy:
                             r_ = None
                         if r_ is not None and r_[0] == 'func' and ev.mutated_params(r_[2]):
                             writes = True
+                            break
+                        if r_ is None and isinstance(n_.func, ast.Name) and n_.func.id not in ('range', 'len', 'int', 'float', 'min', 'max', 'abs', 'enumerate',
+                                                                                             'zip', 'list', 'tuple', 'round', 'sum', 'isinstance', 'bool'):
+                            writes = True       # a callable handed in (a call-back that fills the interval): it may write
                             break
                         if isinstance(n_.func, ast.Attribute) and isinstance(n_.func.value, ast.Name) and n_.func.value.id in ('self', 'cls'):
                             m_ = self.prog.find_method(self.cls, n_.func.attr)
@@ -376,6 +390,9 @@ class Strategy:
             if len(loops) != 2 or any(l.kind != 'range' for l in loops):
                 raise AnalysisError(f"store at {e.loc()} is not inside the recognised (interval, sample) range loop nest")
             kctx, ictx = loops
+            if getattr(kctx, 'stepped', False):
+                raise AnalysisError(f"store at {e.loc()}: the interval loop runs over a stepped range (positions, not interval numbers): which interval "
+                                    f"a sample belongs to is not read off the loop variable: layout not recognised")
             mapping = {_atom(kctx.sym): self.k, _atom(ictx.sym): self.i}
             ilo, ihi = ictx.lo, ictx.hi
             # the sample loop may count something else than the sample number (e.g. the flat index k*n + i): it is re-parametrised by the
@@ -393,7 +410,9 @@ class Strategy:
                                tuple(g.subst(lambda r: sym.subst(r, mapping)) for g in e.guard))
                 self.stores.append(sf)
                 continue
-            if not shift.is_zero() and (_atom(ictx.sym) in set(sym.all_atoms(shift)) or _atom(self.k) in set(sym.all_atoms(shift))):
+            per_interval = (shift / (self.k * self.n))
+            if not shift.is_zero() and (_atom(ictx.sym) in set(sym.all_atoms(shift)) or (_atom(self.k) in set(sym.all_atoms(shift)) and not (
+                    per_interval.is_const() and per_interval.const_value().denominator == 1))):
                 # e.g. loops over flat start positions / flat sample positions: which interval a sample belongs to is not read off the loop variables
                 raise AnalysisError(f"store at {e.loc()}: the index written is not (interval loop variable) * n + (sample loop variable) up to a constant "
                                     f"shift: layout not recognised ({sym.show(idx.r)[:80]})")
